@@ -288,7 +288,7 @@ class Scheduler:
 
 
 # ---- sys.monitoring instrumentation ---------------------------------------------------------------
-_installed = {"sched": None, "codes": set(), "instr_codes": set(), "on": False}
+_installed = {"sched": None, "codes": set(), "instr_codes": set(), "on": False, "core": set()}
 
 
 def code_objects(module, names=None):
@@ -323,8 +323,11 @@ def code_objects(module, names=None):
     return out
 
 
-def install(sched, line_codes, instr_codes=()):
-    """Enable LINE events on line_codes and LINE|INSTRUCTION on instr_codes, dispatching to sched."""
+def install(sched, line_codes, instr_codes=(), core_codes=()):
+    """Enable LINE events on line_codes and LINE|INSTRUCTION on instr_codes, dispatching to sched.  LINE events in
+    core_codes are reported with the kind "line.core" so that a systematic strategy can treat every line of a few
+    anchor functions as a decision point while staying coarse elsewhere."""
+    _installed["core"] = set(core_codes)
     mon = sys.monitoring
     if not _installed["on"]:
         try:
@@ -353,7 +356,7 @@ def uninstall():
 def _on_line(code, line):
     s = _installed["sched"]
     if s is not None and s.active:
-        s.yield_point("line", None)
+        s.yield_point("line.core" if code in _installed["core"] else "line", None)
 
 
 def _on_instr(code, offset):
